@@ -286,7 +286,7 @@ pub fn install_panic_hook() {
             .location()
             .map(|l| format!("{}:{}", l.file(), l.line()))
             .unwrap_or_default();
-        if !PANIC_QUIET.load(Ordering::Relaxed) {
+        if !PANIC_QUIET.load(Ordering::Relaxed) || std::env::var_os("VERIF_PANIC_VERBOSE").is_some() {
             eprintln!("panic in thread {name}: {msg} at {loc}");
         }
         PANIC_LOG
